@@ -227,6 +227,7 @@ class PteraTransformer(NodeTransformer):
         self.filename = filename
         self.globals = glb
         self.to_instrument = to_instrument
+        self.declarations = []
         self.result = self.visit_FunctionDef(tree, root=True)
 
     def should_instrument(self, varname, ann=None):
@@ -588,6 +589,10 @@ class PteraTransformer(NodeTransformer):
             exit_tag=self._get("exit_tag"),
         )
 
+        # global/nonlocal declarations must come before the interactions
+        # on these names that we insert at the start of the function
+        wrapped_body.extend(self.declarations)
+
         wrapped_body.append(
             ast.With(
                 items=[
@@ -618,6 +623,12 @@ class PteraTransformer(NodeTransformer):
     def visit_ClassDef(self, node):
         # Like nested functions, nested classes are left alone
         return node
+
+    def visit_Global(self, node):
+        self.declarations.append(node)
+        return ast.copy_location(ast.Pass(), node)
+
+    visit_Nonlocal = visit_Global
 
     def visit_For(self, node):
         new_body = self.generate_interactions(node.target)
